@@ -110,6 +110,9 @@ C01Part(d) ==
 Probe(n) == IF n % 2 = 0 THEN [rle |-> << <<V(-1, 0), n \div 2>>, <<V(1, 0), n \div 2>> >>, order |-> "interleave"]
             ELSE [rle |-> << <<V(-1, 0), n \div 2>>, <<V(1, 0), n \div 2>>, <<V(0, 0), 1>> >>, order |-> "interleave"]
 NuSel == IF Thorough THEN 1..NNU ELSE (1..120) \cup {i \in 121..NNU : i % 10 = 0} \cup {NNU - 2, NNU - 1, NNU}
+BigCountPart(d) ==
+  \A ty \in {"f64", "f32"} : \A p \in {29, 30, 31} : \A x \in {1, 2} : \A li \in {8, 12, 14} : \A ki \in 1..3 :
+     Emit(MeanCase("arith", ty, "doubling", ki, li, Probe(4), TRUE, "base") @@ [doublings |-> p, extra |-> x])
 C06Part(d) ==
   /\ \A ni \in NuSel : \A li \in 1..NLEV : \A ki \in 1..3 :
        Emit(MeanCase("arith", "f64", "ci", ki, li, Probe(NuOf(ni) + 1), TRUE, "base"))
@@ -117,6 +120,9 @@ C06Part(d) ==
        Emit(MeanCase("arith", "f64", "extend", ki, li, Probe(n), TRUE, "base"))
   /\ \A ni \in {1, 2, 3, 9, 30, 99, 299} : \A li \in 1..NLEV : \A ki \in 1..3 :
        Emit(MeanCase("arith", "f32", "ci", ki, li, Probe(NuOf(ni) + 1), TRUE, "base"))
+  \* states holding more observations than 31 / 32 / 33 bits count (the probe of 4 merged with itself 29 .. 31 times, then
+  \* delivered once or twice more): 4 * (2^p + x) observations, far inside the normal branch
+  /\ BigCountPart(d)
 
 \* levels far outside the tabulated grid (tails of 10^-6 .. 10^-12 on either side) at even degrees of freedom, where the
 \* t distribution function is algebraic and TLC decides the critical value without any table
@@ -295,7 +301,7 @@ C09FoldPart(d) ==
 
 Next == /\ ~done
         /\ done' = TRUE
-        /\ CASE Part = "c01" -> C01Part(done) [] Part = "c06" -> (C06Part(done) /\ UnbalancedUnpaired(done) /\ C06Extreme(done) /\ C06OffGrid(done) /\ OverflowUnpaired(done))
+        /\ CASE Part = "c01" -> (C01Part(done) /\ BigCountPart(done)) [] Part = "c06" -> (C06Part(done) /\ UnbalancedUnpaired(done) /\ C06Extreme(done) /\ C06OffGrid(done) /\ OverflowUnpaired(done))
              [] Part = "c04" -> (C04Part(done) /\ ScaledUnpaired(done) /\ UnbalancedUnpaired(done) /\ OverflowUnpaired(done)) [] Part = "c05" -> C05Part(done)
              [] Part = "designed" -> DesignedPart(done) [] Part = "c09fold" -> C09FoldPart(done)
 Spec == Init /\ [][Next]_done
